@@ -922,3 +922,7 @@ NOT_COVERED = ['announced ndim/shape/dtype/arguments of the ~150 node classes an
                'Einsum with more than two operands or more than one summed axis (the rule is a fold; only the listed index patterns are under contract)',
                'Add over more than three flattened terms (fold; pair and triple are proved)',
                'empty arrays with contradictory child ranges (NormDim, AssertEqual, InRange can make Array._intbounds raise AssertionError)']
+
+
+from contracts import C06b as _c06b  # first sentence of the property: announced ndim/shape/dtype/arguments (contracts/C06b.py)
+contracts, TRUSTED, ASSUMPTIONS, NOT_COVERED = _c06b.extend(contracts, TRUSTED, ASSUMPTIONS, NOT_COVERED)
